@@ -401,6 +401,9 @@ def dispatcher(repo, rep):
 
 
 def run(repo, rep, tier):
+    rep.rule("R-C12-5", "every parameter of the functions behind this property is read (model-native converters): none is accepted and then ignored")
+    from .shared import unused_parameters
+    unused_parameters(repo, rep, "R-C12-5", ("wavespectra.input.ww3", "wavespectra.input.ncswan", "wavespectra.input.wwm", "wavespectra.input.era5", "wavespectra.input.ndbc", "wavespectra.input.dataset"), "model-native converters")
     rep.rule("R-C12-1", "starting from each format's native convention, the converted density types as m2 s deg-1 (linear in the native "
                         "density), frequency as Hz, directions as degrees nautical coming-from in [0,360); winds as m s-1 and coming-from")
     rep.rule("R-C12-2", "WWM: sigma -> f Jacobian (2 pi) present on both coordinate and density, action -> energy by sigma")
